@@ -434,6 +434,7 @@ class W3PerDocReader(base.PerDocumentReader):
         lbyte = reader[docnum]
         if lbyte:
             return byte_to_length(lbyte)
+        return default
 
     def field_length(self, fieldname):
         return self._segment._fieldlengths.get(fieldname, 0)
